@@ -128,9 +128,12 @@ Definition without_new_dynamic (pre post : ostate) : option ostate :=
 Definition window_rejected_limits (pre : ostate) (st : ostep) : bool :=
   match st_op st with
   | OpAppAdd _ _ _ _ _ phask _ tagmaxapps tagmax =>
-      negb (is_nil phask) && (negb (tagmaxapps =? 0) || negb (is_nil tagmax)) &&
+      negb (is_nil phask) &&
       match without_new_dynamic pre (st_obs st) with
-      | Some post' => acct_eqb_gen true false false pre post'
+      | Some post' =>
+          (* with quota tags the limits of the dynamic queue may have been rewritten; without tags only the created
+             queue(s) may be left behind *)
+          acct_eqb_gen true false (negb (negb (tagmaxapps =? 0) || negb (is_nil tagmax))) pre post'
       | None => false
       end
   | _ => false
